@@ -13,6 +13,10 @@ static const long NOW = 1700000000;
 struct PV { int vt; long i; const char *s; };
 static const PV PVALS[] = {{1, NOW + 1000, 0}, {1, NOW - 1000, 0}, {1, 0, 0}, {2, 0, "issuer"}, {2, 0, "subject"}, {2, 0, "audience"}, {2, 0, "other"}, {2, 0, "none"}, {2, 0, "HS256"}, {3, 1, 0}, {4, 0, "[1]"}};
 static const int NPV = 11;
+// values the setters refuse (INVALID): second argument values 48..63 select them (the first table keeps its meaning below that)
+static const PV PBAD[] = {{2, 0, nullptr}, {4, 0, "{\"unterminated\":"}, {4, 0, "5"}, {4, 0, "{\"a\":1,\"a\":2}"}, {4, 0, ""}, {4, 0, nullptr}, {9, 0, "x"}, {2, 0, "\xff\xfe"}};
+static const int NPBAD = 8;
+static const PV &pval(int b) { return b >= 48 ? PBAD[(b - 48) % NPBAD] : PVALS[b % NPV]; }
 static const char *WHOLE[] = {"{\"exp\":4000000000,\"nbf\":0,\"iss\":\"issuer\",\"sub\":\"subject\",\"aud\":\"audience\"}", "{}", "{\"exp\":1}", "{\"alg\":\"none\"}", "{\"iss\":\"other\",\"zz\":[1,2]}"};
 
 struct Prog { std::vector<POp> ops; int ret; };
@@ -20,8 +24,8 @@ static Prog *G_PROG = nullptr; static bool G_RAN = false;
 static int mut_cb(jwt_t *jwt, jwt_config_t *) {
   G_RAN = true;
   for (auto &o : G_PROG->ops) {
-    const char *n = NAMES[o.a % 8]; const PV &pv = PVALS[o.b % NPV]; jwt_value_t v;
-    switch (pv.vt) { case 1: v = val_int(n, pv.i, 1); break; case 2: v = val_str(n, pv.s, 1); break; case 3: v = val_bool(n, 1, 1); break; default: v = val_json(n, pv.s, 1); }
+    const char *n = NAMES[o.a % 8]; const PV &pv = pval(o.b); jwt_value_t v;
+    switch (pv.vt) { case 1: v = val_int(n, pv.i, 1); break; case 2: v = val_str(n, pv.s, 1); break; case 3: v = val_bool(n, 1, 1); break; case 9: v = val_str(n, pv.s, 1); v.type = (jwt_value_type_t)77; break; default: v = val_json(n, pv.s, 1); }
     switch (o.k % P_N) {
     case P_CSET: jwt_claim_set(jwt, &v); break; case P_CDEL: jwt_claim_del(jwt, n); break; case P_CCLEAR: jwt_claim_del(jwt, NULL); break;
     case P_HSET: jwt_header_set(jwt, &v); break; case P_HDEL: jwt_header_del(jwt, n); break; case P_HCLEAR: jwt_header_del(jwt, NULL); break;
@@ -63,7 +67,7 @@ static Case CUR; static std::string TOKEN;
 static std::string case_json(const Case &x) {
   std::string ops = "[", rd = "[";
   for (size_t i = 0; i < x.p.ops.size(); i++) { auto &o = x.p.ops[i]; ops += (i ? "," : "") + std::string("[") + std::to_string(o.k) + "," + std::to_string(o.a) + "," + std::to_string(o.b) + "]";
-    const PV &pv = PVALS[o.b % NPV]; rd += (i ? "," : "") + jstr(std::string(PN[o.k % P_N]) + "(" + NAMES[o.a % 8] + "," + (pv.vt == 1 ? std::to_string(pv.i) : pv.s ? pv.s : "true") + ")"); }
+    const PV &pv = pval(o.b); rd += (i ? "," : "") + jstr(std::string(PN[o.k % P_N]) + "(" + NAMES[o.a % 8] + "," + (pv.vt == 1 ? std::to_string(pv.i) : pv.s ? pv.s : "true") + ")"); }
   return "{\"prov\":" + std::to_string(x.prov) + ",\"cfg\":[" + std::to_string(x.c.key) + "," + std::to_string(x.c.iss) + "," + std::to_string(x.c.sub) + "," + std::to_string(x.c.aud) + "," + std::to_string(x.c.exp_lee) + "," + std::to_string(x.c.nbf_lee) + "],\"tok\":[" +
          std::to_string(x.t.expk) + "," + std::to_string(x.t.nbfk) + "," + std::to_string(x.t.issk) + "," + std::to_string(x.t.subk) + "," + std::to_string(x.t.audk) + "," + std::to_string(x.t.badsig) + "],\"dirty\":" + std::to_string(x.dirty) + ",\"cb_ret\":" + std::to_string(x.p.ret) + ",\"ops\":" + ops + "],\"callback_program\":" + rd + "],\"token\":" + jstr(TOKEN) + "}";
 }
@@ -161,7 +165,7 @@ int main(int argc, char **argv) {
       std::string d, r = run_select(prov, key, algi, tk, &d, mode); st.evaluations++; st.cls("select-cells"); st.nontrivial_distinct();
       if (!r.empty()) st.violation("C19:" + r, "a key/alg selected by the callback is not treated like the same pair given to setkey", d);
     } }
-  uint64_t n = a.thorough() ? 200000 : 2500;
+  uint64_t n = a.thorough() ? 60000 : 2500;
   std::string params = "seed=" + std::to_string(a.seed * 1000 + a.worker) + " max_success=" + std::to_string(n) + " max_size=100";
   setenv("RC_PARAMS", params.c_str(), 1);
   Case lastfail; std::string lastwhy;
